@@ -63,6 +63,48 @@ def call_src(call):
     return "f(" + ", ".join(args) + ")"
 
 
+def _shadow_prog(var_value, as_kw):
+    """A kept callee whose in-source argument is a bare name: the caller's parameter `a`, while the module also has a variable `a`."""
+    keep = {"k": "keep", "path": "/model", "callee": ("m0", "leaf"), "layout": "single",
+            "pos": [] if as_kw else [["param", 0]], "kw": [["a", ["param", 0]]] if as_kw else []}
+    funcs = [{"name": "leaf", "params": [{"name": "a", "default": None}], "annot": None, "salt": "l0", "stmts": [], "reads": []},
+             {"name": "root", "params": [{"name": "a", "default": None}], "annot": None, "salt": "t0", "stmts": [keep], "reads": []}]
+    return {"pkg": "vpl", "ext_helpers": {}, "root": ("m0", "root"), "modules": {"m0": {"vars": {"a": var_value}, "funcs": funcs}}}
+
+
+def run_programs(rep):
+    """Through a whole evaluation: the argument of an in-source dds.keep is a name (a parameter of the caller) that a module-level
+    variable of the same name shadows nothing of; two evaluations binding it differently must keep different signatures and both
+    return what plain execution returns; the same binding again must reuse the first signature."""
+    import hist
+    n = 0
+    for var_value, as_kw in itertools.product((i_(5), s_("x"), ["bool", True], ["none"], V.f_(0.5)), (False, True)):
+        prog = _shadow_prog(var_value, as_kw)
+        vals = [i_(1), i_(9), i_(1), s_("q")]
+        ev = [("prog", prog)] + [("act", {"a": "call", "mod": "m0", "fn": "root", "style": "eval", "pos": [v], "kw": []}) for v in vals]
+        name = f"program:param-shadows-module-var:{P.py_repr(var_value)}:{'kw' if as_kw else 'pos'}"
+        rep.case(name)
+        n += 1
+        try:
+            recs = hist.run_history(ev, store_kind="local")
+        except Exception as e:  # noqa
+            rep.violation("harness-error:c13prog", f"{name}: {str(e)[-300:]}", {"events": ev}, no_input=True)
+            continue
+        sigs = [hist.impl_obs(r)["sigs"] for r in recs]
+        for i, r in enumerate(recs):
+            d = hist.compare(r)
+            if d:
+                rep.violation("model-mismatch:program", f"{name}: implementation and model disagree at call {i}: {json.dumps(d[:2])[:300]}", {"events": ev, "action": i})
+            if r["impl"]["out"] != r["ref"]["out"]:
+                rep.violation("binding-collision:program-stale", f"{name}: root({P.py_repr(vals[i])}) returned {r['impl']['out'][:80]} but plain execution gives "
+                              f"{r['ref']['out'][:80]}", {"events": ev, "action": i})
+        if sigs[0] is not None and sigs[0] == sigs[1]:
+            rep.violation("binding-collision:program", f"{name}: root(1) and root(9) keep /model under one signature {sigs[0]}", {"events": ev, "sigs": sigs})
+        if sigs[0] != sigs[2]:
+            rep.violation("spelling:program-unstable", f"{name}: the same call root(1) twice gives two signatures", {"events": ev, "sigs": sigs})
+    return n
+
+
 def run(rep, tier, seed, proof_ok):
     rng = random.Random(seed)
     rep.rule = ("functions with 1..4 positional-or-keyword parameters (no default / truthy / falsy / None defaults) x full bindings over "
@@ -150,7 +192,8 @@ def run(rep, tier, seed, proof_ok):
     if r[0] == r[1]:
         rep.violation("binding-collision:marker-string", "f(1) with default None and f(1, '__none__') share one argument signature",
                       {"def": mk["def"], "calls": mk["calls"], "sig": r[0]})
-    rep.extra["input_distribution"] = {"functions": len(cases), "calls": mi, "seen_in_source": n_ast}
+    n_prog = run_programs(rep)
+    rep.extra["input_distribution"] = {"functions": len(cases), "calls": mi, "seen_in_source": n_ast, "whole_evaluation_programs": n_prog}
     rep.sample({"def": cases[0]["def"], "call": call_src(cases[0]["calls"][0])})
     rep.sample({"def": cases[-1]["def"], "call": call_src(cases[-1]["calls"][-1])})
 
